@@ -392,8 +392,27 @@ def channels_for(container: str) -> list[str]:
     return ch
 
 
-def deliver(container: str, data, channel: str, scratch: Scratch, stem: str = "data"):
-    """Returns (xlsform argument, cleanup callable, supplies_stem: bool)."""
+def path_stem(name: str) -> str:
+    """The harness's own reading of "the stem of a file name": the name without its last suffix, where a
+    suffix starts at the last '.', which must be neither the first nor the last character."""
+    i = name.rfind(".")
+    return name[:i] if 0 < i < len(name) - 1 else name
+
+
+SUFFIX_VARIANTS = ["{ext}", "{ext}", "{ext}", "{EXT}", "{Ext}", ".txt", ".markdown", ".dat", ".v2", "", ".backup{ext}", ".{ext_}_old", "."]
+
+
+def file_name(rng, container: str, stem: str) -> str:
+    """A file name for a container: the canonical suffix, its upper / capitalised spelling, a foreign or
+    missing suffix, several suffixes, a trailing dot."""
+    ext = EXT[container]
+    v = rng.choice(SUFFIX_VARIANTS)
+    return stem + v.format(ext=ext, EXT=ext.upper(), Ext="." + ext[1:].capitalize(), ext_=ext[1:])
+
+
+def deliver(container: str, data, channel: str, scratch: Scratch, stem: str = "data", name: str | None = None):
+    """Returns (xlsform argument, cleanup callable, supplies_stem: bool).  `name` = the whole file name
+    (default: stem + the container's canonical suffix)."""
     raw = data.encode("utf-8") if isinstance(data, str) else data
     if channel == "str":
         return data, (lambda: None), False
@@ -409,7 +428,7 @@ def deliver(container: str, data, channel: str, scratch: Scratch, stem: str = "d
         b = io.BytesIO(raw)
         b.read(4)
         return b, (lambda: None), False
-    p = scratch.file(stem, EXT[container], raw)
+    p = scratch.file(name, "", raw) if name is not None else scratch.file(stem, EXT[container], raw)
 
     def rm():
         shutil.rmtree(p.parent, ignore_errors=True)
